@@ -3,6 +3,7 @@ import XProofs.Limits
 import XModel.Opt
 import XModel.OptFix
 import XModel.OptLimits
+import XModel.OptPerCall
 import XProofs.MaxStep
 /-!
 # C10 — accepted optimizer iterates respect limits, max_step and disabled knobs
@@ -23,7 +24,9 @@ not modelled; `resync` is an oracle flag).
 **NOT covered.**
 * "a disabled target has no influence on the steps taken": the steps (Jacobian probes, trial points) are oracle
   parameters of the skeleton, so the statement cannot be expressed;
-* the per-call `disable_*` / `enable_*` arguments of `step` (not modelled);
+* of the per-call `disable_*` / `enable_*` arguments of `step` (modelled: `Opt.optStepWith`, section "per-call arguments"
+  below): the resolution of ids / tags / names to positions (done by the harness, `re.fullmatch`), the Boolean forms
+  `enable_vary=True/False`, and `_clip_to_limits` under `check_limits=False`;
 * `solve()`'s restore path: it reloads a row logged BEFORE the call, which may write out-of-limit values and change a
   knob that is disabled now (`Opt.LimitsExample`); every theorem below is about one `optStep`, with `take_best` reloading
   a row logged during the call;
@@ -246,6 +249,178 @@ theorem C10_two_calls_within_max_step (c : Opt.Cfg K) (W : Nat → K) (ms wt : N
        ∃ i, tb2 = some i ∧ r2 = .ok () ∧ s2.lastWithin = false ∧ Opt.reload c i s2 = (r, s') ∧
          (tail = [] ∨ ∃ row, s2.log[i]? = some row ∧ tail = [row]))) :=
   MaxStep.optStep_two_calls c W ms wt lo hi hc hW hms its1 its2 hne tb2 s sm s' r h1 hok h2
+
+/-! ### per-call arguments of `step`: `enable_target / enable_vary / enable_vary_name / disable_target / disable_vary /
+    disable_vary_name`
+
+`Opt.optStepWith a c its tb` is `Optimize.step` with its six per-call arguments, each given as the list of positions (in
+`opt.vary` / `opt.targets`) it switches — the harness resolves ids, tags and names to positions and the driver runs this
+definition from the state BEFORE the flags are applied, comparing knobs, log rows and the FINAL flags with the
+implementation's.  The order is the code's: `enable_target, enable_vary, disable_target, disable_vary, disable_vary_name,
+enable_vary_name` before the start row is logged, the opposite state in the same order after the `take_best` reload; an
+exception skips the second block (there is no `try/finally` in the code). -/
+
+/-- **"after which they are active again"** — what the code does on a normal return, for every index an argument names,
+    with NO hypothesis on the flags before the call, the numerics or `take_best`: a knob named by `disable_vary` or
+    `disable_vary_name` (and not by `enable_vary_name`) is active afterwards — also when it was inactive before the call;
+    a target named by `disable_target` is active afterwards; a knob named by `enable_vary_name`, or by `enable_vary` and no
+    `disable_*` argument, and a target named by `enable_target` only, are INACTIVE afterwards — also when they were active
+    before the call.  The arguments do not restore, they set. -/
+theorem C10_per_call_flags_after_return {R : Type} (a : Opt.StepArgs) (c : Opt.Cfg R) (its : List (Opt.Iter R))
+    (tb : Option Nat) (s s' : Opt.St R) (h : Opt.optStepWith a c its tb s = (.ok (), s')) :
+    (∀ k, (k ∈ a.disableVary ∨ k ∈ a.disableVaryName) → k ∉ a.enableVaryName → s'.vAct k = true) ∧
+    (∀ k, k ∈ a.enableVaryName → s'.vAct k = false) ∧
+    (∀ k, k ∈ a.enableVary → k ∉ a.disableVary → k ∉ a.disableVaryName → s'.vAct k = false) ∧
+    (∀ k, k ∈ a.disableTarget → s'.tAct k = true) ∧
+    (∀ k, k ∈ a.enableTarget → k ∉ a.disableTarget → s'.tAct k = false) :=
+  Opt.optStepWith_ok_mentioned a c its tb s s' h
+
+/-- **every other flag is what it was before the call**: on a normal return, with `take_best` reloading a row logged
+    during the call (the hypothesis the driver evaluates per call, `tb_in_call`), a knob / target that NO argument names has
+    the flag it had before the call; and all flags together are `finalV a` / `finalT a` of the flags before the call -/
+theorem C10_per_call_other_flags_unchanged {R : Type} (a : Opt.StepArgs) (c : Opt.Cfg R) (its : List (Opt.Iter R))
+    (tb : Option Nat) (s s' : Opt.St R) (htb : ∀ i, tb = some i → s.log.length ≤ i)
+    (h : Opt.optStepWith a c its tb s = (.ok (), s')) :
+    s'.vAct = Opt.finalV a s.vAct ∧ s'.tAct = Opt.finalT a s.tAct ∧
+    (∀ k, k ∉ a.enableVary ∧ k ∉ a.disableVary ∧ k ∉ a.disableVaryName ∧ k ∉ a.enableVaryName → s'.vAct k = s.vAct k) ∧
+    (∀ k, k ∉ a.enableTarget ∧ k ∉ a.disableTarget → s'.tAct k = s.tAct k) :=
+  Opt.optStepWith_ok_flags a c its tb s s' htb h
+
+/-- **a knob disabled for one call is never changed by that call**: a knob named by `disable_vary` or `disable_vary_name`
+    and not re-enabled by `enable_vary_name` (applied after them; `enable_vary`, applied before them, does not count)
+    holds its entry value in the container after the call — whatever the numerics, whatever the outcome (normal return
+    or exception) — and every row the call logs records that value with the knob's flag off -/
+theorem C10_per_call_disabled_knob_never_changed {R : Type} (a : Opt.StepArgs) (c : Opt.Cfg R) (its : List (Opt.Iter R))
+    (tb : Option Nat) (k : Nat) (s s' : Opt.St R) (r : Except Opt.Err Unit)
+    (hd : k ∈ a.disableVary ∨ k ∈ a.disableVaryName) (hn : k ∉ a.enableVaryName)
+    (htb : ∀ i, tb = some i → s.log.length ≤ i) (h : Opt.optStepWith a c its tb s = (r, s')) :
+    s'.knobs k = s.knobs k ∧
+    ∀ i row, s.log.length ≤ i → s'.log[i]? = some row → row.knobs k = s.knobs k ∧ row.vAct k = false :=
+  Opt.optStepWith_disabled_fixed a c its tb k s s' r hd hn htb h
+
+/-- the general form: any knob that is off DURING the call (`Opt.tempV a s.vAct k = false`: disabled by an argument as
+    above, or inactive before and not named by `enable_vary` / `enable_vary_name`) -/
+theorem C10_per_call_inactive_knob_never_changed {R : Type} (a : Opt.StepArgs) (c : Opt.Cfg R) (its : List (Opt.Iter R))
+    (tb : Option Nat) (k : Nat) (s s' : Opt.St R) (r : Except Opt.Err Unit) (hk : Opt.tempV a s.vAct k = false)
+    (htb : ∀ i, tb = some i → s.log.length ≤ i) (h : Opt.optStepWith a c its tb s = (r, s')) :
+    s'.knobs k = s.knobs k ∧
+    ∀ i row, s.log.length ≤ i → s'.log[i]? = some row → row.knobs k = s.knobs k ∧ row.vAct k = false :=
+  Opt.optStepWith_temp_disabled_fixed a c its tb k s s' r hk htb h
+
+/-- for the index the driver computes (`Opt.takeBestArg pens s.log.length = some (argmin + s.log.length)`) the hypothesis
+    on `take_best` holds by itself: the flag updates do not touch the log -/
+theorem C10_per_call_disabled_knob_take_best {R : Type} (a : Opt.StepArgs) (c : Opt.Cfg R) (its : List (Opt.Iter R))
+    (j k : Nat) (s s' : Opt.St R) (r : Except Opt.Err Unit)
+    (hd : k ∈ a.disableVary ∨ k ∈ a.disableVaryName) (hn : k ∉ a.enableVaryName)
+    (h : Opt.optStepWith a c its (some (s.log.length + j)) s = (r, s')) :
+    s'.knobs k = s.knobs k ∧
+    ∀ i row, s.log.length ≤ i → s'.log[i]? = some row → row.knobs k = s.knobs k ∧ row.vAct k = false :=
+  Opt.optStepWith_take_best_disabled_fixed a c its j k s s' r hd hn h
+
+/-- **an exception leaves the temporary flags behind** (the code has no `try/finally`; this documents it, it is not a
+    guarantee anybody asked for): when `step(..)` raises — user function, limit, penalty increase — and `take_best`
+    reloaded nothing older than the call, the flags are exactly those the arguments set before the loop: a knob named by
+    `disable_vary` / `disable_vary_name` (not by `enable_vary_name`) is LEFT DISABLED, a target named by `disable_target` is
+    left disabled, a knob named by `enable_vary_name` is left enabled; the rows logged record these flags -/
+theorem C10_per_call_exception_leaves_temporary_flags {R : Type} (a : Opt.StepArgs) (c : Opt.Cfg R)
+    (its : List (Opt.Iter R)) (tb : Option Nat) (s s' : Opt.St R) (e : Opt.Err)
+    (htb : ∀ i, tb = some i → s.log.length ≤ i) (h : Opt.optStepWith a c its tb s = (.error e, s')) :
+    s'.vAct = Opt.tempV a s.vAct ∧ s'.tAct = Opt.tempT a s.tAct ∧
+    (∀ k, (k ∈ a.disableVary ∨ k ∈ a.disableVaryName) → k ∉ a.enableVaryName → s'.vAct k = false) ∧
+    (∀ k, k ∈ a.disableTarget → s'.tAct k = false) ∧
+    (∀ k, k ∈ a.enableVaryName → s'.vAct k = true) ∧
+    (∀ i row, s.log.length ≤ i → s'.log[i]? = some row →
+      row.vAct = Opt.tempV a s.vAct ∧ row.tAct = Opt.tempT a s.tAct) :=
+  Opt.optStepWith_error_flags a c its tb s s' e htb h
+
+/-- the same without any hypothesis on `take_best`: after an exception the flags are the temporary ones, or those
+    recorded in the log row that `take_best` reloaded (it is then that reload's own evaluation which raised) -/
+theorem C10_per_call_exception_flags_any_take_best {R : Type} (a : Opt.StepArgs) (c : Opt.Cfg R)
+    (its : List (Opt.Iter R)) (tb : Option Nat) (s s' : Opt.St R) (e : Opt.Err)
+    (h : Opt.optStepWith a c its tb s = (.error e, s')) :
+    (s'.vAct = Opt.tempV a s.vAct ∧ s'.tAct = Opt.tempT a s.tAct) ∨
+    ∃ i row, tb = some i ∧ s'.log[i]? = some row ∧ s'.vAct = row.vAct ∧ s'.tAct = row.tAct :=
+  Opt.optStepWith_error_flags_cases a c its tb s s' e h
+
+/-- the flags never move during the call proper (used by the three theorems above): whatever the outcome of `step()`
+    without arguments, with `take_best` reloading a row logged during the call, both masks are those at entry and every
+    row logged records them -/
+theorem C10_flags_constant_during_step {R : Type} (c : Opt.Cfg R) (its : List (Opt.Iter R)) (tb : Option Nat)
+    (s s' : Opt.St R) (r : Except Opt.Err Unit) (htb : ∀ i, tb = some i → s.log.length ≤ i)
+    (h : Opt.optStep c its tb s = (r, s')) :
+    s'.vAct = s.vAct ∧ s'.tAct = s.tAct ∧
+    ∀ i row, s.log.length ≤ i → s'.log[i]? = some row → row.vAct = s.vAct ∧ row.tAct = s.tAct :=
+  Opt.optStep_flags_fixed c its tb s s' r htb h
+
+/-- a `step()` without per-call arguments is the `step()` of all the other theorems of this file -/
+theorem C10_per_call_no_arguments {R : Type} (c : Opt.Cfg R) (its : List (Opt.Iter R)) (tb : Option Nat) (s : Opt.St R) :
+    Opt.optStepWith {} c its tb s = Opt.optStep c its tb s :=
+  Opt.optStepWith_noArgs c its tb s
+
+/-! non-vacuity (`Opt.PerCallExample`: three knobs over `Int`, unit weights, limits `[-10, 10]`, container `(1, 2, 3)`;
+    in `s0` knob 1 and target 1 are OFF; one iteration accepting `(7, 7, 7)`) -/
+
+section
+open Opt.PerCallExample
+open Opt.LimitsExample (isOk errOf pair_eta)
+
+/-- `step(disable_vary=[1], disable_vary_name=[2], disable_target=[1])` returns normally: only knob 0 moves, and afterwards
+    knobs 1, 2 and target 1 are active — knob 1 and target 1 were NOT before the call -/
+example : isOk (Opt.optStepWith argsD good3 [it7] none s0).1 = true ∧
+    flagsOf s0.vAct = [true, false, true] ∧ flagsOf s0.tAct = [true, false, true] ∧
+    knobsOf (Opt.optStepWith argsD good3 [it7] none s0).2 = [7, 2, 3] ∧
+    flagsOf (Opt.optStepWith argsD good3 [it7] none s0).2.vAct = [true, true, true] ∧
+    flagsOf (Opt.optStepWith argsD good3 [it7] none s0).2.tAct = [true, true, true] := by
+  decide +kernel
+
+/-- the three normal-return theorems apply to that run (hypotheses discharged) … -/
+example := C10_per_call_flags_after_return argsD good3 [it7] none s0 _
+  (Opt.BestExample.ok_eta (Opt.optStepWith argsD good3 [it7] none s0) (by decide +kernel))
+example := C10_per_call_other_flags_unchanged argsD good3 [it7] none s0 _ (by intro i hi; cases hi)
+  (Opt.BestExample.ok_eta (Opt.optStepWith argsD good3 [it7] none s0) (by decide +kernel))
+example := C10_per_call_disabled_knob_never_changed argsD good3 [it7] none 2 s0 _ _ (Or.inr (by decide)) (by decide)
+  (by intro i hi; cases hi) (pair_eta (Opt.optStepWith argsD good3 [it7] none s0))
+
+/-- … and knob 0, which no argument names, is indeed an instance of "unmentioned" -/
+example : (0 ∉ argsD.enableVary ∧ 0 ∉ argsD.disableVary ∧ 0 ∉ argsD.disableVaryName ∧ 0 ∉ argsD.enableVaryName) ∧
+    (0 ∉ argsD.enableTarget ∧ 0 ∉ argsD.disableTarget) := by decide
+
+/-- `step(enable_vary=[0, 1], enable_target=[1])`: knob 1 moves during the call; afterwards knobs 0, 1 and target 1 are
+    inactive — knob 0 was active before the call -/
+example : isOk (Opt.optStepWith argsE good3 [it7] none s0).1 = true ∧
+    knobsOf (Opt.optStepWith argsE good3 [it7] none s0).2 = [7, 7, 7] ∧
+    flagsOf (Opt.optStepWith argsE good3 [it7] none s0).2.vAct = [false, false, true] ∧
+    flagsOf (Opt.optStepWith argsE good3 [it7] none s0).2.tAct = [true, false, true] := by
+  decide +kernel
+
+/-- the order of the code matters: knob 2 in `disable_vary` and `enable_vary_name` is ON during the call (moves) and OFF
+    after it; knob 0 in `enable_vary` and `disable_vary` is OFF during the call (stays at 1) and ON after it -/
+example : isOk (Opt.optStepWith argsO good3 [it7] none s0).1 = true ∧
+    knobsOf (Opt.optStepWith argsO good3 [it7] none s0).2 = [1, 2, 7] ∧
+    flagsOf (Opt.optStepWith argsO good3 [it7] none s0).2.vAct = [true, false, false] := by
+  decide +kernel
+
+/-- **witness of the missing `try/finally`**: all knobs and targets active; the user's function raises at the accepted
+    point; `step(disable_vary=[1], disable_vary_name=[2], disable_target=[1])` raises and knobs 1, 2 and target 1 are left
+    DISABLED -/
+example : errOf (Opt.optStepWith argsD raises7 [it7] none sAllOn).1 = some .user ∧
+    flagsOf sAllOn.vAct = [true, true, true] ∧ flagsOf sAllOn.tAct = [true, true, true] ∧
+    flagsOf (Opt.optStepWith argsD raises7 [it7] none sAllOn).2.vAct = [true, false, false] ∧
+    flagsOf (Opt.optStepWith argsD raises7 [it7] none sAllOn).2.tAct = [true, false, true] := by
+  decide +kernel
+
+/-- the exception theorem applies to that run -/
+example := C10_per_call_exception_leaves_temporary_flags argsD raises7 [it7] none sAllOn _ .user (by intro i hi; cases hi)
+  (err_eta (Opt.optStepWith argsD raises7 [it7] none sAllOn) .user (by decide +kernel))
+
+/-- the `take_best` hypothesis of `C10_per_call_other_flags_unchanged` is needed: reloading a row logged BEFORE the call
+    (knob 0 off in it) ends, on a normal return, with knob 0 — named by no argument, active before — inactive -/
+example : isOk (Opt.optStepWith argsD good3 [it7] (some 0) sOld).1 = true ∧
+    flagsOf sOld.vAct = [true, true, true] ∧
+    flagsOf (Opt.optStepWith argsD good3 [it7] (some 0) sOld).2.vAct = [false, true, true] := by
+  decide +kernel
+
+end
 
 /-! non-vacuity of the chain theorem (`MaxStep.Ex`: `ℚ`, two knobs with weights 1 and 4, `max_step = (1, none)`, two
     iterations whose last points are trial points of a clipped raw step, the first one clipped) -/
